@@ -93,8 +93,10 @@ def main():
                 'engine': 'mcv-' + engine,
                 'level_claimed': {
                     'category': 'model_checking',
-                    'text': text + ' Small-scope exhaustive: the verdict covers every case inside the stated bounds, '
-                                   'executed on the implementation itself (no separate model).',
+                    'text': text + ' These are the core families; further exhaustive families (added after seeded-defect waves and '
+                                   'gap reviews) are listed with their rules and counts in the evidence file and in DESIGN.md '
+                                   'sections 8 and 10. Small-scope exhaustive: the verdict covers every case inside the stated '
+                                   'bounds, executed on the implementation itself (no separate model).',
                     'design_ref': 'DESIGN.md section ' + ref,
                 },
                 'level_note': COMMON_NOTE,
